@@ -1393,6 +1393,7 @@ func (enc *VP8Encoder) EncodeFrame() ([]byte, error) {
 		return nil, err
 	}
 	enc.computeStats(frameData)
+	verifAfterEncode(enc)
 	return frameData, nil
 }
 
